@@ -31,7 +31,7 @@ macro_rules! ops {
                 let sig_s = sig.as_ref().map(|t| t.to_string()).map_err(|e| e.to_string());
                 if sig.is_err() { Some((sig_s, None)) } else {
                     let r = catch_unwind(AssertUnwindSafe(|| o.call($ctx.clone(), $args)));
-                    Some((sig_s, Some(r.map(|x| x.map(|v| tyname(&v).to_string()).map_err(|e| e.to_string())).map_err(|_| ()))))
+                    Some((sig_s, Some(r.map(|x| x.map(|v| match &v { Value::Boolean(b) => format!("boolean:{}", b), _ => tyname(&v).to_string() }).map_err(|e| e.to_string())).map_err(|_| ()))))
                 }
             })+
             _ => None,
@@ -65,8 +65,25 @@ fn verif_replay() {
     let name = a["op"].as_str().unwrap().to_string();
     // operands of class "bound"/"bound_array" are names bound by a real `let` scope around the operator
     let mut vars: Vec<Value> = vec![];
+    let mut outer_vars: Vec<Value> = vec![];
     let args: Vec<Value> = a["operands"].as_array().unwrap().iter().enumerate().map(|(k, o)| {
+        if o["class"].as_str() == Some("array_bound") {
+            // [x, <literal>] with x bound by the surrounding let
+            let es = o["elems"].as_array().unwrap();
+            let id = format!("v_arg{}_e0", k);
+            vars.push(Value::Tuple(Arc::new(vec![Value::Identifier(id.clone()), mk(&es[0])])));
+            return Value::Array(Arc::new(vec![Value::Identifier(id), mk(&es[1])]));
+        }
         let v = mk(o);
+        if o["class"].as_str() == Some("shadowed") {
+            // let t=<v> in let t=<shadow>; s=t in op(s, ..)
+            let t = format!("t_arg{}", k);
+            let sname = format!("v_arg{}", k);
+            outer_vars.push(Value::Tuple(Arc::new(vec![Value::Identifier(t.clone()), v])));
+            vars.push(Value::Tuple(Arc::new(vec![Value::Identifier(t.clone()), mk(&o["shadow"])])));
+            vars.push(Value::Tuple(Arc::new(vec![Value::Identifier(sname.clone()), Plus::make_call(Value::Identifier(t), Value::Integer(0)).into()])));
+            return Value::Identifier(sname);
+        }
         if o["class"].as_str().map(|c| c.starts_with("bound")).unwrap_or(false) {
             let id = format!("v_arg{}", k);
             vars.push(Value::Tuple(Arc::new(vec![Value::Identifier(id.clone()), v])));
@@ -74,14 +91,18 @@ fn verif_replay() {
         } else { v }
     }).collect();
     let ctx: ScriptContextRef = Default::default();
+    let ctx = if outer_vars.is_empty() { ctx } else { Scope::make_context(&outer_vars, ctx).unwrap() };
     let ctx = if vars.is_empty() { ctx } else { Scope::make_context(&vars, ctx).unwrap() };
     let r = ops!(name.as_str(), ctx, &args, Not, BitNot, Negative, Plus, Minus, Multiply, Divide, Mod, BitAnd, BitOr, BitXor, ShiftLeft, ShiftRight,
-                 ShiftRightUnsigned, And, Or, Xor, Greater, GreaterOrEqual, Lesser, LesserOrEqual, Equal, NotEqual, ToString, ToInteger, Split, StringConcat, Index);
+                 ShiftRightUnsigned, And, Or, Xor, Greater, GreaterOrEqual, Lesser, LesserOrEqual, Equal, NotEqual, ToString, ToInteger, Split, StringConcat, Index, IsMemberOf);
     match r {
         None => println!("VERIF-OUTCOME {}", serde_json::json!({"unknown_op": name})),
         Some((sig, None)) => println!("VERIF-OUTCOME {}", serde_json::json!({"sig_ok": false, "sig": sig.err(), "panicked": false})),
         Some((sig, Some(Err(())))) => println!("VERIF-OUTCOME {}", serde_json::json!({"sig_ok": true, "sig": sig.ok(), "panicked": true})),
-        Some((sig, Some(Ok(Ok(t))))) => println!("VERIF-OUTCOME {}", serde_json::json!({"sig_ok": true, "sig": sig.ok(), "panicked": false, "call_ok": true, "value_type": t})),
+        Some((sig, Some(Ok(Ok(t))))) => {
+            let (ty, bv) = match t.split_once(':') { Some((a, b)) => (a.to_string(), Some(b == "true")), None => (t.clone(), None) };
+            println!("VERIF-OUTCOME {}", serde_json::json!({"sig_ok": true, "sig": sig.ok(), "panicked": false, "call_ok": true, "value_type": ty, "value_bool": bv}))
+        }
         Some((sig, Some(Ok(Err(e))))) => println!("VERIF-OUTCOME {}", serde_json::json!({"sig_ok": true, "sig": sig.ok(), "panicked": false, "call_ok": false, "err": e})),
     }
 }
